@@ -521,11 +521,23 @@ class Model:
             return {self.fold(mod, x) for x in e.elts}
         if isinstance(e, ast.Dict):
             return {self.fold(mod, k): self.fold(mod, v) for k, v in zip(e.keys, e.values)}
+        if isinstance(e, ast.BinOp) and isinstance(e.op, (ast.Sub, ast.BitOr, ast.BitAnd, ast.BitXor)):
+            a, b = self.fold(mod, e.left), self.fold(mod, e.right)
+            if isinstance(a, (set, frozenset)) and isinstance(b, (set, frozenset)):
+                r_ = a - b if isinstance(e.op, ast.Sub) else a | b if isinstance(e.op, ast.BitOr) else a & b if isinstance(e.op, ast.BitAnd) else a ^ b
+                return frozenset(r_) if isinstance(a, frozenset) else set(r_)
+            raise AnalysisError(f"cannot fold {ast.unparse(e)[:60]} in {mod.name}")
         if isinstance(e, ast.Attribute):
             # members of the standard library's HTTP status table (trusted base: CPython's http module)
             parts = ast.unparse(e).split(".")
             r = self.resolve_global(mod, parts[0])
             dotted = ".".join([r[1], *parts[1:]]) if r and r[0] == "ext" else None
+            if dotted and dotted.startswith("string.") and dotted.count(".") == 1:
+                import string as _string
+
+                name_ = dotted.split(".", 1)[1]
+                if name_ in ("ascii_letters", "ascii_lowercase", "ascii_uppercase", "digits", "hexdigits", "octdigits", "punctuation", "whitespace", "printable"):
+                    return getattr(_string, name_)
             if dotted and dotted.startswith("http.HTTPStatus.") and dotted.count(".") == 2:
                 import http
 
